@@ -67,7 +67,18 @@ func VerifC11Script() {
 	p := NewPool()
 	var accepted []*c11Commit
 	for i := 0; i < n; i++ {
-		if symx.Bool(symx.N("isProcess", i)) {
+		isProcess := false
+		if script := symx.Cfg("script", -1); script >= 0 {
+			// concrete step kinds: decimal digits of cfg script, 0 = add commitment, 1 = process
+			d := script
+			for k := n - 1; k > i; k-- {
+				d /= 10
+			}
+			isProcess = d%10 == 1
+		} else {
+			isProcess = symx.Bool(symx.N("isProcess", i))
+		}
+		if isProcess {
 			timeout := symx.Bool(symx.N("timeout", i))
 			wasDiscrepancy := p.Discrepancy
 			sc, err := p.ProcessCommitments(c, allowed, timeout)
